@@ -11,6 +11,7 @@ mod probe;
 mod run;
 mod script;
 mod state;
+mod stress;
 
 use run::{check_spec, reset_history, Decl, Hist};
 use script::{parse_new, parse_op, parse_script, parse_up, Spec, UpStep};
@@ -169,8 +170,14 @@ fn main() {
         let ok = bombs::run_all(&args[2]);
         std::process::exit(if ok { 0 } else { 1 });
     }
+    if args.len() == 4 && args[1] == "--stress" {
+        // real threads: the search for a failing input when a concurrency lemma broke (see stress.rs)
+        let secs = args[2].parse::<u64>().unwrap_or(30);
+        let ok = stress::run(secs, &args[3]);
+        std::process::exit(if ok { 0 } else { 1 });
+    }
     if args.len() != 3 {
-        eprintln!("usage: fbharness <history-file> <trace-file>\n       fbharness --layout\n       fbharness --bombs <out-file>");
+        eprintln!("usage: fbharness <history-file> <trace-file>\n       fbharness --layout\n       fbharness --bombs <out-file>\n       fbharness --stress <seconds> <out-file>");
         std::process::exit(2);
     }
     let input = match std::fs::read_to_string(&args[1]) {
